@@ -36,7 +36,7 @@ SHRINK_DICTS = ("world/files", "world/env", "world/symlinks", "ops/*/obj", "ops/
 CYCLIC = ["&a [*a]", "&x {k: *x}", "&a [1, [2, *a]]"]
 BADV = ["!!int abc", "!!timestamp abc", "!!int '_'", "!!float x", "!!bool maybe", "!!null x", "!!str [1]", "!!seq {a: 1}", "!!map [1]", "!!binary =", "1.e", "-.e1", "1e-", "[1", "{", '{"a":', "*nope", "!!python/object:os.system x", "\x00", "a\x00b", "", " ", "null", "~", "-", "1e999", "{1: 2}", "? [1,2] : 3", "\t", "\u00e9", "0x1F", "yes", "--", "-1", "=", "a=b=c", "{{}}", "[[[[[[[[[[]]]]]]]]]]", "!!binary abc", "--- a\n--- b", "key: [unclosed", "- 1\n- 2", "{a: 1, a: 2}", "!!set {1, 2}", "!!python/tuple [1]", ".inf", "1:30", "2001-01-01", "<<: {a: 1}"] + CYCLIC
 CLASSP = ["Sub1", "Base", "dsim.simtypes.Sub2", "dsim.simtypes.Sub1", "Sub3", "dsim.simtypes.Sub3"]
-BADCLASSP = ["calendar.NoSuch", "os.path", "dsim.simtypes.Unrelated", "dsim.simtypes.AbstractBase", "no.such.module.X", "Sub1.", ".Sub1", "1bad.path", "dsim.simtypes", "dsim.simtypes.double", "dsim.simtypes.D", "json", "builtins.int", "Sub3", "calendar.Calendar", ""]
+BADCLASSP = ["dsim.badmod.Thing", "dsim.badsyntax.broken", "calendar.NoSuch", "os.path", "dsim.simtypes.Unrelated", "dsim.simtypes.AbstractBase", "no.such.module.X", "Sub1.", ".Sub1", "1bad.path", "dsim.simtypes", "dsim.simtypes.double", "dsim.simtypes.D", "json", "builtins.int", "Sub3", "calendar.Calendar", ""]
 BADSPEC = [
     {"class_path": 3},
     {"class_path": "Sub1", "init_args": 5},
@@ -81,6 +81,8 @@ F = {
     "cb": {"decl": {"type": "callable_base"}, "good": ["Sub1", "dsim.simtypes.make_base"], "bad": BADCLASSP[:8], "sub": ["n", "help", "tags"], "cls": True},
     "tb": {"decl": {"type": "opt_type_base", "default": None}, "good": ["dsim.simtypes.Sub1", "dsim.simtypes.Base"], "bad": BADCLASSP + [3, [1], {"class_path": "Sub1"}]},
     "tbp": {"decl": {"type": "type_base", "default": "dsim.simtypes.Base"}, "good": ["dsim.simtypes.Sub1"], "bad": BADCLASSP + [3, [1], {"class_path": "Sub1"}]},
+    "td": {"decl": {"type": "timedelta", "default": "0:00:01"}, "good": ["1:02:03", "2 days, 0:00:00"], "bad": ["99999999999999999999:0:0", "x", "1:99999999999999999999999:0", [1], 3, "-1:-1:-1"]},
+    "otd": {"decl": {"type": "opt_timedelta", "default": None}, "good": ["1:02:03", None], "bad": ["99999999999999999999:0:0", "x", [1]]},
     "dec": {"decl": {"type": "decimal", "default": "1.5"}, "good": ["2.5", 3], "bad": ["abc", [1], "1,5", "NaN"]},
     "ld": {"decl": {"type": "list_D", "default": []}, "good": [[{"u": 2}], []], "bad": [[{"u": "x"}], [{"zz": 1}], [3], {"u": 1}, "x", [{"class_path": "dsim.simtypes.D"}], [{"class_path": "dsim.simtypes.D", "init_args": {"u": "x"}}], [{"class_path": 3}]], "append": True, "sub": ["u", "0.u"]},
     "dsd": {"decl": {"type": "dict_str_D", "default": {}}, "good": [{"k": {"u": 2}}], "bad": [{"k": {"u": "x"}}, {"k": 3}, {"k": {"zz": 1}}, [1]], "sub": ["k", "k.u", "k.zz"]},
